@@ -63,11 +63,24 @@ theorem fixed_roundtrip (a : UInt32) (b : UInt64) (rest : Bytes) :
 theorem decodeTile_encodeTile (t : VTTile) (h : WFTile t) : decodeTile (encodeTile t) = .ok t :=
   decodeTile_encodeTile' t h
 
-/-- The scanner terminates and never panics, on every byte string … -/
+/-- The MODEL's scan loops terminate on every byte string: `Orb.ProtoWire` has one panic source,
+    running out of fuel (fuel = number of unread bytes), and it is never reached.  This is a
+    termination fact about the model.  It is NOT a proof that protoscan's slice expressions
+    (`m.Data[m.Index:m.Index+l]`, `binary.LittleEndian.Uint32(b.Data[b.Index:])`) stay in range:
+    the model totalises them with `take` / `drop` / pattern matching after the same bounds tests
+    the Go code makes (`packedLength`, the `len(m.Data) <= m.Index+8` test of `Skip`); that no Go
+    index panic occurs in the scanner rests on the `wireh` correspondence (every hostile string is
+    run through `mvt.Unmarshal` under `recover`, verdict `propfail panic unmarshal`). -/
 theorem decodeTile_total (bs : Bytes) : (decodeTile bs).isPanic = false := decodeTile_total' bs
 
-/-- … and so does `Unmarshal` as a whole. -/
+/-- … and the model of `Unmarshal` as a whole has no panic outcome either: no fuel exhaustion in
+    the scanner, and none of the explicit index panics of the structure decoders of `Orb.MVT`
+    (`unmarshal_total`: there every Go index IS an explicit panic outcome of the model). -/
 theorem unmarshalBytes_total (bs : Bytes) : (unmarshalBytes bs).isPanic = false := unmarshalBytes_total' bs
+
+/-- The same with any orientation function in the polygon decoder (Go: the float64 shoelace). -/
+theorem unmarshalBytesWith_total (ori : List (Pt Int) → Int) (bs : Bytes) :
+    (unmarshalBytesWith ori bs).isPanic = false := unmarshalBytesWith_total' ori bs
 
 /-- Every tile structure `Marshal` builds from Go-typed input holds numbers that fit the Go
     types of `vectortile.Tile` … -/
@@ -115,6 +128,31 @@ theorem bytes_roundtrip (ls : List Layer) (h : mvtWF ls = true) (hx : exactDomai
   · simp [marshalBytes, hm, Res.map]
   · rw [(wire_transparent ls t (mvtWF_inputFits ls h) hm hlen).2, hu]
     rfl
+
+/-- The byte-level round trip at full strength (what Go runs): `unmarshalBytesWith ori` for any
+    orientation function that is exact on the rings of the input, layers without a +0 / −0 clash. -/
+theorem bytes_roundtrip_exact (ori : List (Pt Int) → Int) (ls : List Layer) (h : mvtWF ls = true)
+    (hx : exactDomainZ ls = true) (ho : oriAgree ori ls) :
+    ∃ bs, marshalBytes ls = .ok bs ∧
+      (bs.length < 2^63 → unmarshalBytesWith ori bs = .ok (expectLayers ls)) := by
+  obtain ⟨t, hm, hu⟩ := layer_roundtrip_exact' ori ls h hx ho
+  refine ⟨encodeTile t, ?_, fun hlen => ?_⟩
+  · simp [marshalBytes, hm, Res.map]
+  · unfold unmarshalBytesWith
+    rw [decodeTile_encodeTile' t ⟨marshalVT_tileFits' ls t (mvtWF_inputFits ls h) hm, hlen⟩]
+    simp only [hu]
+    rfl
+
+/-- The gzip-magic test (`dataIsGZipped`, unmarshal.go:38-40, 475-477): an error of `unmarshalTile`
+    is replaced by `ErrDataIsGZipped` exactly when the data starts with 1f 8b; a success is kept. -/
+theorem unmarshalTop_spec {α : Type} (data : Bytes) (r : R α) :
+    (∀ a, r = .ok a → unmarshalTop data r = .ok a) ∧
+    (∀ e, r = .err e → dataIsGZipped data = true → unmarshalTop data r = .err .gzipped) ∧
+    (∀ e, r = .err e → dataIsGZipped data = false → unmarshalTop data r = .err e) := by
+  refine ⟨?_, ?_, ?_⟩
+  · rintro a rfl; rfl
+  · rintro e rfl hg; simp [unmarshalTop, hg]
+  · rintro e rfl hg; simp [unmarshalTop, hg]
 
 /-- Non-vacuity: a well-formed tile structure (strings, every number kind, packed fields); and the
     bytes `mvt.Marshal` wrote (recorded from the Go run) for one point feature with id 300 and the
